@@ -40,3 +40,60 @@ Example idp_flow_example :
   /\ fst (idp_flow_form [(IdPModel.post_binding, "https://sp.example.com/acs", 1, None)]
                         "https://collector.example.net/acs" "" "TVNH" "rs") = 1.
 Proof. vm_compute. split; reflexivity. Qed.
+
+(* ---------- IdP-initiated: the FIRST HTTP-POST endpoint ---------- *)
+Lemma find_index_post_first : forall (l : list acs_entry) i,
+  match find_index IdPModel.p_post
+          (map (fun e : acs_entry => let '(b, loc, ix, df) := e in
+                  {| IdPModel.ep_binding := b; IdPModel.ep_location := loc; IdPModel.ep_index := ix; IdPModel.ep_default := df |}) l) i with
+  | Some (_, e) => first_post_location l = Some (IdPModel.ep_location e)
+  | None => first_post_location l = None
+  end.
+Proof.
+  induction l as [|[[[b loc] ix] df] l IH]; intros i; [reflexivity|].
+  cbn [map find_index first_post_location]. unfold IdPModel.p_post at 1. cbn [IdPModel.ep_binding].
+  destruct (seqb b IdPModel.post_binding); [reflexivity|apply IH].
+Qed.
+
+Lemma first_post_app a b :
+  first_post_location (a ++ b) =
+  match first_post_location a with Some x => Some x | None => first_post_location b end.
+Proof.
+  induction a as [|[[[bb loc] ix] df] a IH]; [reflexivity|]. cbn.
+  destruct (seqb bb IdPModel.post_binding); [reflexivity|apply IH].
+Qed.
+
+Lemma find_acs_first_post : forall (descs : list (list acs_entry)) di,
+  match IdPModel.find_acs IdPModel.p_post (IdPModel.descriptors (md_of_descs descs)) di with
+  | Some (_, _, _, e) => first_post_location (List.concat descs) = Some (IdPModel.ep_location e)
+  | None => first_post_location (List.concat descs) = None
+  end.
+Proof.
+  cbn [md_of_descs IdPModel.descriptors].
+  induction descs as [|d descs IH]; intros di; [reflexivity|].
+  cbn [map IdPModel.find_acs IdPModel.acs List.concat]. rewrite first_post_app.
+  pose proof (find_index_post_first d 0) as H.
+  destruct (find_index IdPModel.p_post _ 0) as [[ei e]|].
+  - now rewrite H.
+  - rewrite H. apply IH.
+Qed.
+
+(* for every list of descriptors (any number of endpoints of any bindings): the
+   form is emitted iff there is an HTTP-POST endpoint, and then its action is
+   the first one in document order, with the intended structure *)
+Theorem idp_initiated_first_post descs msg relay :
+  match first_post_location (List.concat descs) with
+  | Some loc =>
+      let data := {| fd_url := loc; fd_msg := msg; fd_relay := relay; fd_toast := EmptyString |} in
+      idp_initiated_form descs msg relay = (0, render_form FIdpResponse data)
+      /\ tokenize_form (render_form FIdpResponse data) = Some (intended_of FIdpResponse data)
+  | None => idp_initiated_form descs msg relay = (2, EmptyString)
+  end.
+Proof.
+  unfold idp_initiated_form, IdPModel.idp_initiated_route.
+  pose proof (find_acs_first_post descs 0) as H.
+  destruct (IdPModel.find_acs IdPModel.p_post (IdPModel.descriptors (md_of_descs descs)) 0) as [[[[a b] c] e]|].
+  - rewrite H. cbv zeta. split; [reflexivity|].
+    exact (form_structure_fixed FIdpResponse {| fd_url := IdPModel.ep_location e; fd_msg := msg; fd_relay := relay; fd_toast := EmptyString |}).
+  - now rewrite H.
+Qed.
